@@ -1,6 +1,7 @@
 import TvCore.Model.Types
 import TvCore.Model.Link
 import TvCore.Model.Ports
+import TvCore.Model.Dns
 /-
   World model of the `turmoil` crate: hosts (UDP / TCP tables of host.rs), links (top.rs),
   user-held socket objects (net/tcp/*, net/udp.rs) and the step schedule of sim.rs.
@@ -105,6 +106,8 @@ structure World where
   now : Nat := 0              -- topology clock
   elapsed : Nat := 0          -- Sim::elapsed
   cur : Option Nat := none    -- current host
+  dns : Dns String := {}
+  v6 : Bool := false
   -- bookkeeping
   oraErr : Bool := false      -- an expected oracle value was missing / of the wrong kind
   panicked : Option String := none
@@ -132,6 +135,22 @@ def ipnumOf (w : World) : Ip → Option Nat
 
 def hostIdxOfIpnum (w : World) (n : Nat) : Option Nat :=
   w.hosts.findIdx? (fun h => h.ipnum == n)
+
+/-- numeric address of DNS counter value `n` (192.168.a.b / fe80::…). -/
+def ipOfCounter (v6 : Bool) (n : Nat) : Nat :=
+  if v6 then
+    let (a, b, c, d) := addrV6 n
+    0xfe80 * 2 ^ 112 + a * 2 ^ 48 + b * 2 ^ 32 + c * 2 ^ 16 + d
+  else
+    let (a, b) := addrV4 n
+    3232235520 + a * 256 + b
+
+def dnsLookup (w : World) (name : String) : Nat × World :=
+  let (n, d) := w.dns.lookup name
+  (ipOfCounter w.v6 n, { w with dns := d })
+
+def dnsReverse (w : World) (ip : Nat) : Option String :=
+  (w.dns.names.find? (fun p => ipOfCounter w.v6 p.2 == ip)).map (·.1)
 
 /-! ### oracle -/
 
